@@ -17,9 +17,13 @@ type c05Config struct {
 	Mode     int  // 0 refuse, 1 black hole
 	MCQ      int
 	Isolated int // members partitioned away (mcq kind)
+	Parts    int // partition count (leave kind; 0 = small default)
 }
 
 func (c c05Config) String() string {
+	if c.Kind == "leave" {
+		return fmt.Sprintf("leave R=%d W=%d N=%d mode=%d parts=%d", c.R, c.W, c.N, c.Mode, c.Parts)
+	}
 	if c.Kind == "mcq" {
 		return fmt.Sprintf("mcq N=%d MCQ=%d isolated=%d", c.N, c.MCQ, c.Isolated)
 	}
@@ -55,6 +59,18 @@ var c05Space = func() []c05Config {
 			}
 		}
 	}
+	// a backup owner departs (Mode 0: graceful leave, 1: crash) while Puts keep arriving on the
+	// coordinator: a departed member is an unreachable backup owner, too
+	for _, rw := range [][2]int{{2, 2}, {3, 3}, {3, 2}} {
+		for _, N := range []int{rw[0], rw[0] + 1} {
+			out = append(out, c05Config{Kind: "leave", R: rw[0], W: rw[1], RQ: 1, N: N, Mode: 0})
+			// after a crash the table is recomputed seconds later, partition by partition with a round
+			// trip each: more partitions = a longer time in which the old and the new owner lists coexist
+			for _, parts := range []int{0, 71, 271} {
+				out = append(out, c05Config{Kind: "leave", R: rw[0], W: rw[1], RQ: 1, N: N, Mode: 1, Parts: parts})
+			}
+		}
+	}
 	return out
 }()
 
@@ -78,6 +94,39 @@ func genC05(seed uint64, tier string) *plan.Plan {
 	p.Variant = cfg.String()
 	p.Params["space_index"] = int64(seed % uint64(len(c05Space)))
 	sc := plan.Script{ID: 1, Kind: "ctl"}
+	if cfg.Kind == "leave" {
+		p.Cluster.ClientReadTimeoutMs = 1000
+		p.Cluster.RoutingPushMs = Pick(r, 1000, 5000)
+		p.Params["W"] = int64(cfg.W)
+		if cfg.Parts > 0 {
+			p.Cluster.Partitions = uint64(cfg.Parts)
+		}
+		load := plan.Script{ID: 1, Kind: "ctl"}
+		for i := 0; i < 12; i++ {
+			load.Ops = append(load.Ops, plan.Op{K: "put", Key: fmt.Sprintf("b%d", i), Val: "b", Tag: "emb", M: 0})
+		}
+		ev := plan.Script{ID: 9, Kind: "ctl"}
+		ev.Ops = append(ev.Ops, plan.Op{K: "ctl.sleep", Dur: int64(Pick(r, 50, 300))})
+		victim := r.Range(1, cfg.N-1)
+		if cfg.Mode == 0 {
+			ev.Ops = append(ev.Ops, plan.Op{K: "ctl.leave", M: victim})
+		} else {
+			ev.Ops = append(ev.Ops, plan.Op{K: "ctl.crash", M: victim, Flag: r.Bool(500)})
+		}
+		work := plan.Phase{Name: "leave", Clients: []plan.Script{ev}}
+		for w := 0; w < 4; w++ {
+			ws := plan.Script{ID: 2 + w, Kind: "ctl"}
+			for i, n := 0, r.Range(150, 400); i < n; i++ {
+				k := fmt.Sprintf("w%d-%d", w, i)
+				// every Put writes a fresh key on the coordinator (member 0); the copies are counted at once
+				ws.Ops = append(ws.Ops, plan.Op{K: "put", Key: k, Val: "v-" + k, Tag: "emb", M: 0, D: int64(Pick(r, 0, 0, 0, 2000, 40000, 150000))},
+					plan.Op{K: "ctl.copies", Key: k, Tag: "after-put"})
+			}
+			work.Clients = append(work.Clients, ws)
+		}
+		p.Phases = []plan.Phase{{Name: "load", Clients: []plan.Script{load}}, work}
+		return p
+	}
 	if cfg.Kind == "rw" {
 		path := Pick(r, "embo", "embo", "cc")
 		key := fmt.Sprintf("q%d", r.Intn(50))
@@ -137,6 +186,45 @@ func genC05(seed uint64, tier string) *plan.Plan {
 func oracleC05(p *plan.Plan, his []plan.Rec, res *plan.Result) {
 	res.NTKey = fmt.Sprint(p.Params["space_index"])
 	recs := sortRecs(his)
+	if strings.HasPrefix(p.Variant, "leave") {
+		// acknowledged => at least W copies stored, for every Put that started after the member was down
+		// (a copy written to the departing member just before it went would no longer be counted)
+		W := int(p.Params["W"])
+		down := int64(-1)
+		for i := range recs {
+			if k := recs[i].Op.K; (k == "ctl.leave" || k == "ctl.crash") && recs[i].Err == "" {
+				down = recs[i].TRet
+			}
+		}
+		var last *plan.Rec
+		for i := range recs {
+			r := &recs[i]
+			switch {
+			case r.Op.K == "put" && strings.HasPrefix(r.Op.Key, "w"):
+				last = r
+				if r.Err == "" {
+					res.Counters["oracle.acknowledged_puts"]++
+				} else if r.Err == plan.EWriteQ {
+					res.Counters["oracle.write_quorum_errors"]++
+				}
+			case r.Op.K == "ctl.copies" && last != nil && last.Op.Key == r.Op.Key:
+				if last.Err != "" || down < 0 || last.TInv < down {
+					continue
+				}
+				res.Nontrivial = true
+				n := 0
+				for _, c := range r.Copies {
+					if c.Found && c.Val == last.Op.Val {
+						n++
+					}
+				}
+				if n < W {
+					viol(res, "acknowledged-below-write-quorum", p.Variant, "%s was acknowledged but only %d copies are stored (WriteQuorum %d): %+v", descRecT(last), n, W, r.Copies)
+				}
+			}
+		}
+		return
+	}
 	if strings.HasPrefix(p.Variant, "rw") {
 		R, W, RQ, cut := int(p.Params["R"]), int(p.Params["W"]), int(p.Params["RQ"]), int(p.Params["cut"])
 		var base, put1, get1, get2, after, cutRec *plan.Rec
